@@ -1,7 +1,8 @@
 (* C06 -- SUB delivers exactly the matching messages; PUB reaches every subscriber.  Statements only.
    Models: Model/PubSub.v (cooked SUB with contexts `sstate`, raw XSUB `xstate`, PUB/XPUB `pstate`); one step
-   = one stimulus and everything the library's goroutines then do until quiescence.  `sb_run sb_init h` is the
-   state of a SUB socket after the history h. *)
+   = one stimulus and everything the library's goroutines then do until quiescence.  `sb_run fixed sb_init h` is the
+   state of a SUB socket after the history h; fixed = true is the repaired sub.go (READQ-LEN >= 0 enforced, the receiver
+   never blocks under the socket lock), fixed = false the code as found.  The check ties the code to fixed = true. *)
 From MV Require Import Lib.Proto Model.PubSub Model.PubSubOracle Proofs.PubSubProofs.
 Open Scope N_scope.
 
@@ -21,73 +22,73 @@ Print Assumptions C06_empty_subscription_matches_all.
 
 (* sub_iff: in ANY state, an arriving message is enqueued for context c (dropping c's oldest message when c's
    queue is full) iff a current subscription of c is a prefix of its body; otherwise c is untouched *)
-Theorem C06_sub_iff : forall s p body c x,
+Theorem C06_sub_iff : forall fixed s p body c x,
   pipe_up (sb_pipes s) p = true -> sb_wedged s = false ->
   kget c (sb_ctxs s) = Some x -> x_closed x = false ->
   blocked_on (sb_threads s) c = [] -> 0 < x_qlen x ->
   ((exists t r, In t (x_subs x) /\ body = t ++ r) ->
-     kget c (sb_ctxs (fst (sb_step s (SDeliver p body)))) = Some (push x body)) /\
+     kget c (sb_ctxs (fst (sb_step fixed s (SDeliver p body)))) = Some (push x body)) /\
   (~ (exists t r, In t (x_subs x) /\ body = t ++ r) ->
-     kget c (sb_ctxs (fst (sb_step s (SDeliver p body)))) = Some x).
+     kget c (sb_ctxs (fst (sb_step fixed s (SDeliver p body)))) = Some x).
 Proof. exact sub_iff. Qed.
 Print Assumptions C06_sub_iff.
 
 (* ... and a Recv parked on c returns the arriving message, unmodified, iff it matches; c's queue stays as it was *)
-Theorem C06_sub_iff_parked : forall s p body c x th,
+Theorem C06_sub_iff_parked : forall fixed s p body c x th,
   pipe_up (sb_pipes s) p = true -> sb_wedged s = false ->
   NoDup (map fst (sb_ctxs s)) -> NoDup (map th_id (sb_threads s)) ->
   kget c (sb_ctxs s) = Some x -> x_closed x = false ->
   blocked_on (sb_threads s) c = [th] ->
-  (In (ORet (th_id th) (RMsg [] body)) (snd (sb_step s (SDeliver p body))) <-> exists t r, In t (x_subs x) /\ body = t ++ r)
-  /\ kget c (sb_ctxs (fst (sb_step s (SDeliver p body)))) = Some x.
+  (In (ORet (th_id th) (RMsg [] body)) (snd (sb_step fixed s (SDeliver p body))) <-> exists t r, In t (x_subs x) /\ body = t ++ r)
+  /\ kget c (sb_ctxs (fst (sb_step fixed s (SDeliver p body)))) = Some x.
 Proof. exact sub_iff_parked. Qed.
 Print Assumptions C06_sub_iff_parked.
 
 (* unsub_purges: when Unsubscribe returns, c's queue is `filter matches old` for the remaining subscriptions:
    nothing that no longer matches is left, what still matches keeps its relative order *)
-Theorem C06_unsub_purges : forall s t c v topic x,
+Theorem C06_unsub_purges : forall fixed s t c v topic x,
   sb_wedged s = false -> kget c (sb_ctxs s) = Some x -> In topic (x_subs x) ->
-  exists x', kget c (sb_ctxs (fst (sb_step s (SCall t (CSetOpt c OUnsubscribe v topic))))) = Some x' /\
+  exists x', kget c (sb_ctxs (fst (sb_step fixed s (SCall t (CSetOpt c OUnsubscribe v topic))))) = Some x' /\
              x_subs x' = remove1 topic (x_subs x) /\
              x_q x' = filter (matches (x_subs x')) (x_q x) /\
              (forall m, In m (x_q x') -> matches (x_subs x') m = true) /\
-             snd (sb_step s (SCall t (CSetOpt c OUnsubscribe v topic))) = [ORet t ROk].
+             snd (sb_step fixed s (SCall t (CSetOpt c OUnsubscribe v topic))) = [ORet t ROk].
 Proof. exact unsub_purges. Qed.
 Print Assumptions C06_unsub_purges.
 
-Theorem C06_unsub_absent : forall s t c v topic x,
+Theorem C06_unsub_absent : forall fixed s t c v topic x,
   sb_wedged s = false -> kget c (sb_ctxs s) = Some x -> ~ In topic (x_subs x) ->
-  sb_ctxs (fst (sb_step s (SCall t (CSetOpt c OUnsubscribe v topic)))) = sb_ctxs s /\
-  snd (sb_step s (SCall t (CSetOpt c OUnsubscribe v topic))) = [ORet t (RErr EBadValue)].
+  sb_ctxs (fst (sb_step fixed s (SCall t (CSetOpt c OUnsubscribe v topic)))) = sb_ctxs s /\
+  snd (sb_step fixed s (SCall t (CSetOpt c OUnsubscribe v topic))) = [ORet t (RErr EBadValue)].
 Proof. exact unsub_absent. Qed.
 Print Assumptions C06_unsub_absent.
 
 (* ctx_independent: any call on context c' (Recv, Subscribe, Unsubscribe, READQ-LEN, RECV-DEADLINE, open, close)
    leaves every other context's record (subscriptions, queue, length, flags) and parked calls unchanged ... *)
-Theorem C06_ctx_independent : forall s t k c c',
+Theorem C06_ctx_independent : forall fixed s t k c c',
   call_ctx k = Some c' -> c <> c' ->
-  kget c (sb_ctxs (fst (sb_step s (SCall t k)))) = kget c (sb_ctxs s) /\
-  blocked_on (sb_threads (fst (sb_step s (SCall t k)))) c = blocked_on (sb_threads s) c.
+  kget c (sb_ctxs (fst (sb_step fixed s (SCall t k)))) = kget c (sb_ctxs s) /\
+  blocked_on (sb_threads (fst (sb_step fixed s (SCall t k)))) c = blocked_on (sb_threads s) c.
 Proof. exact ctx_independent. Qed.
 Print Assumptions C06_ctx_independent.
 
 (* ... and what an arrival does to c is a function of c's own record and c's own parked calls *)
-Theorem C06_deliver_local : forall s p body c,
+Theorem C06_deliver_local : forall fixed s p body c,
   pipe_up (sb_pipes s) p = true -> sb_wedged s = false ->
-  kget c (sb_ctxs (fst (sb_step s (SDeliver p body)))) =
+  kget c (sb_ctxs (fst (sb_step fixed s (SDeliver p body)))) =
   match kget c (sb_ctxs s) with Some x => Some (snd (dl_ctx (sb_threads s) body (c, x))) | None => None end.
 Proof. exact deliver_local. Qed.
 Print Assumptions C06_deliver_local.
 
 (* for ALL histories: every message queued on any context matches that context's subscriptions in force *)
-Theorem C06_queues_match_always : forall h, sub_inv (sb_run sb_init h).
+Theorem C06_queues_match_always : forall fixed h, sub_inv (sb_run fixed sb_init h).
 Proof. exact sub_inv_always. Qed.
 Print Assumptions C06_queues_match_always.
 
-Theorem C06_recv_returns_matching : forall h t c x m q',
-  let s := sb_run sb_init h in
+Theorem C06_recv_returns_matching : forall fixed h t c x m q',
+  let s := sb_run fixed sb_init h in
   kget c (sb_ctxs s) = Some x -> x_q x = m :: q' -> x_closed x = false -> sb_wedged s = false ->
-  snd (sb_step s (SCall t (CRecv c))) = [ORet t (RMsg [] m)] /\ matches (x_subs x) m = true.
+  snd (sb_step fixed s (SCall t (CRecv c))) = [ORet t (RMsg [] m)] /\ matches (x_subs x) m = true.
 Proof. exact recv_returns_matching. Qed.
 Print Assumptions C06_recv_returns_matching.
 
@@ -110,44 +111,78 @@ Theorem C06_pub_full_drops_newest : forall s t c h b pp,
 Proof. exact pub_full_drops_newest. Qed.
 Print Assumptions C06_pub_full_drops_newest.
 
-(* The code as found does not meet the property for two accepted option values (the model follows the code):
-   READQ-LEN 0 on a SUB context: a matching message that finds no Recv parked blocks the receiver goroutine in
-   `c.recvQ <- m` with the socket lock held; the message is never delivered and every later Recv, SetOption, Close,
-   OpenContext parks on the mutex for ever.  READQ-LEN < 0: SetOption panics in make(chan). *)
-Theorem C06_readqlen_zero_refuted : forall s p body c x,
+(* The code as found (fixed = false) did not meet the property for two accepted option values:
+   READQ-LEN 0 on a SUB context: a matching message that finds no Recv parked blocked the receiver goroutine in
+   `c.recvQ <- m` with the socket lock held; the message was never delivered and every later Recv, SetOption, Close,
+   OpenContext parked on the mutex for ever.  READQ-LEN < 0: SetOption panicked in make(chan).
+   Both were reproduced on the implementation, repaired, and the repaired model (fixed = true) is what the check uses. *)
+Theorem C06_readqlen_zero_old_refuted : forall s p body c x,
   pipe_up (sb_pipes s) p = true -> sb_wedged s = false ->
   kget c (sb_ctxs s) = Some x -> x_closed x = false -> x_qlen x = 0 ->
   blocked_on (sb_threads s) c = [] -> matches (x_subs x) body = true ->
-  sb_wedged (fst (sb_step s (SDeliver p body))) = true.
+  sb_wedged (fst (sb_step false s (SDeliver p body))) = true.
 Proof. exact readqlen_zero_wedges. Qed.
-Print Assumptions C06_readqlen_zero_refuted.
+Print Assumptions C06_readqlen_zero_old_refuted.
 
-Theorem C06_wedged_blocks : forall s t k,
+Theorem C06_wedged_blocks : forall fixed s t k,
   sb_wedged s = true -> sb_locks k = true ->
-  snd (sb_step s (SCall t k)) = [] /\ In t (sb_blocked (fst (sb_step s (SCall t k)))) /\
-  sb_wedged (fst (sb_step s (SCall t k))) = true.
+  snd (sb_step fixed s (SCall t k)) = [] /\ In t (sb_blocked (fst (sb_step fixed s (SCall t k)))) /\
+  sb_wedged (fst (sb_step fixed s (SCall t k))) = true.
 Proof. exact wedged_blocks. Qed.
 Print Assumptions C06_wedged_blocks.
 
-Theorem C06_readqlen_zero_witness :
-  map (fun r => snd r) (u_trace U0 wedge_history) = [[]; []; []; []; []; [3]; [3; 4]].
-Proof. exact wedge_history_blocks. Qed.
-Print Assumptions C06_readqlen_zero_witness.
+Theorem C06_readqlen_zero_old_witness :
+  map (fun r => snd r) (u_trace false U0 wedge_history) = [[]; []; []; []; []; [3]; [3; 4]].
+Proof. exact wedge_history_old. Qed.
+Print Assumptions C06_readqlen_zero_old_witness.
 
-Theorem C06_readqlen_negative_refuted : forall s t c x v arg,
+Theorem C06_readqlen_negative_old_refuted : forall s t c x v arg,
   kget c (sb_ctxs s) = Some x -> (v < 0)%Z ->
-  snd (sb_step s (SCall t (CSetOpt c OReadQLen v arg))) = [ORet t (RErr EPanic)].
+  snd (sb_step false s (SCall t (CSetOpt c OReadQLen v arg))) = [ORet t (RErr EPanic)].
 Proof. exact readqlen_negative_panics. Qed.
-Print Assumptions C06_readqlen_negative_refuted.
+Print Assumptions C06_readqlen_negative_old_refuted.
 
-Theorem C06_readqlen_negative_witness : c06_panic_oracle (u_trace U0 panic_history) = Some 1.
-Proof. exact panic_history_flagged. Qed.
-Print Assumptions C06_readqlen_negative_witness.
+Theorem C06_readqlen_negative_old_witness : c06_panic_oracle (u_trace false U0 panic_history) = Some 1.
+Proof. exact panic_history_old. Qed.
+Print Assumptions C06_readqlen_negative_old_witness.
+
+(* The repaired code: for ALL histories (any READQ-LEN values, any arrivals) the socket is never wedged and no call
+   is ever parked on its mutex *)
+Theorem C06_fixed_never_wedges : forall h, unwedged (sb_run true sb_init h).
+Proof. exact fixed_never_wedges. Qed.
+Print Assumptions C06_fixed_never_wedges.
+
+(* READQ-LEN 0: a matching message that no parked Recv takes is dropped, the context and socket stay as they were *)
+Theorem C06_readqlen_zero_drops : forall s p body c x,
+  pipe_up (sb_pipes s) p = true -> sb_wedged s = false ->
+  kget c (sb_ctxs s) = Some x -> x_qlen x = 0 -> blocked_on (sb_threads s) c = [] ->
+  kget c (sb_ctxs (fst (sb_step true s (SDeliver p body)))) = Some x /\
+  sb_wedged (fst (sb_step true s (SDeliver p body))) = false.
+Proof. exact readqlen_zero_drops. Qed.
+Print Assumptions C06_readqlen_zero_drops.
+
+Theorem C06_readqlen_zero_on_witness :
+  map (fun r => (snd (fst r), snd r)) (u_trace true U0 wedge_history) =
+  [([], []); ([], []); ([ORet 1 ROk], []); ([ORet 2 ROk], []); ([], []); ([], [3]); ([ORet 3 (RErr EClosed); ORet 4 ROk], [])].
+Proof. exact wedge_history_fixed. Qed.
+Print Assumptions C06_readqlen_zero_on_witness.
+
+(* READQ-LEN < 0: ErrBadValue and an unchanged socket *)
+Theorem C06_readqlen_negative_rejected : forall s t c x v arg,
+  kget c (sb_ctxs s) = Some x -> (v < 0)%Z ->
+  snd (sb_step true s (SCall t (CSetOpt c OReadQLen v arg))) = [ORet t (RErr EBadValue)] /\
+  fst (sb_step true s (SCall t (CSetOpt c OReadQLen v arg))) = sb_emit (sb_clear s) (ORet t (RErr EBadValue)).
+Proof. exact readqlen_negative_rejected. Qed.
+Print Assumptions C06_readqlen_negative_rejected.
+
+Theorem C06_readqlen_negative_on_witness : c06_panic_oracle (u_trace true U0 panic_history) = None.
+Proof. exact panic_history_fixed. Qed.
+Print Assumptions C06_readqlen_negative_on_witness.
 
 (* non-vacuity: a two-context history with deliveries, a purge and a hand-over on which the oracles are silent *)
 Example C06_demo :
-  c06_sub_oracle (u_trace U0 demo_history) = None /\ c06_live_oracle (u_trace U0 demo_history) = None /\
-  flat_map (fun r => snd (fst r)) (u_trace U0 demo_history) =
+  c06_sub_oracle (u_trace true U0 demo_history) = None /\ c06_live_oracle (u_trace true U0 demo_history) = None /\
+  flat_map (fun r => snd (fst r)) (u_trace true U0 demo_history) =
     [ORet 1 ROk; ORet 2 ROk; ORet 3 ROk; ORet 4 ROk; ORet 5 ROk; ORet 6 (RMsg [] (mkb 2 24930));
      ORet 7 (RMsg [] (mkb 2 25185))].
 Proof. exact demo_history_ok. Qed.
